@@ -48,8 +48,10 @@ RULE = (
     "by the round trip through the partner model on the implementation's own answers; (c) DNA parametrisations "
     "(kbp 0.5..60, um/kbp 0.2..0.7, -5..60 C); (d) a malformed stream: non-positive or missing parameters, 2-D "
     "independent, incompatible composites, interpolation with infinite limits, selected_root=3, forces <= 0, "
-    "distances >= Lc, NaN. Non-trivial: the implementation returned at least one finite number that the model "
-    "could be compared with inside its error bound, or (malformed stream) an error."
+    "distances >= Lc, NaN, empty input. Non-trivial: the implementation returned at least one finite number "
+    "(chain / cubic / dna cases) or a parameter list (names cases); every case of the malformed stream counts "
+    "(error, nan/inf or number). How many compared values were inside / outside the model's error bound is "
+    "reported separately (values_compared_within_model_error_bound / values_dropped_bound_undetermined)."
 )
 TRUSTED = [
     "RealLike formulas are executed at Float and proved at R; rounding is not modelled: the comparison uses a running "
@@ -1156,6 +1158,7 @@ def cases(tier, rng):
             continue
         p = draw_params(sub, e)
         xs = monotone_sample(sub, e, p, sub.randint(0 if not uses_solver(e) else 1, 5))
+        yield {"stream": "random", "op": "names", "expr": e, "subseed": i}
         yield chain_case(e, p, xs, "random", False, subseed=i)
 
     # ---- generic inversion, with and without interpolation, of constructors and of composites
